@@ -147,7 +147,9 @@ Section Rel.
     status_rel x (i_status i) (i_status i') /\
     (forall c, In c (i_children i') -> In c (i_children i)) /\
     (forall c, ~ R c -> count_occ N.eq_dec (i_children i') c = count_occ N.eq_dec (i_children i) c) /\
-    (i_activated i = 0%Z -> i_activated i' = 0%Z) /\
+    ((i_activated i = 0%Z -> i_activated i' = 0%Z) /\
+     ((0 < i_activated i')%Z -> (i_activated i' <= i_activated i)%Z) /\
+     ((0 <= i_activated i)%Z -> (0 <= i_activated i')%Z)) /\
     (~ R x -> i_activated i' = i_activated i /\ i_nis i' = i_nis i /\ i_status i' = i_status i).
 
   (* how an action may change: only while STARTING/STARTED, only inside A, the count only
@@ -164,6 +166,7 @@ Section Rel.
     | EFailed x => R x
     | EFinished x => R x
     | ERestart x _ _ => R x
+    | EStarted x => R x
     end.
 
   Definition ast (s : st) (a : uid) : option astatus := option_map a_status (geta s a).
@@ -204,14 +207,15 @@ Section Rel.
   Qed.
 
   Lemma irel_refl : forall x i, irel x i i.
-  Proof. unfold irel; intros; repeat split; auto using status_rel_refl. Qed.
+  Proof. unfold irel; intros; repeat split; auto using status_rel_refl; intros; lia. Qed.
 
   Lemma irel_trans : forall x i1 i2 i3, irel x i1 i2 -> irel x i2 i3 -> irel x i1 i3.
   Proof.
     unfold irel; intros x i1 i2 i3
-      (F1 & P1 & A1 & S1 & T1 & C1 & K1 & Z1 & N1) (F2 & P2 & A2 & S2 & T2 & C2 & K2 & Z2 & N2).
+      (F1 & P1 & A1 & S1 & T1 & C1 & K1 & (Z1 & M1 & G1) & N1) (F2 & P2 & A2 & S2 & T2 & C2 & K2 & (Z2 & M2 & G2) & N2).
     repeat split; try congruence; eauto using status_rel_trans.
     - intros c Hc. rewrite K2, K1; auto.
+    - intros Hp. specialize (M2 Hp). assert (0 < i_activated i2)%Z by lia. specialize (M1 H). lia.
     - destruct (N1 H) as (? & ? & ?), (N2 H) as (? & ? & ?); congruence.
     - destruct (N1 H) as (? & ? & ?), (N2 H) as (? & ? & ?); congruence.
     - destruct (N1 H) as (? & ? & ?), (N2 H) as (? & ? & ?); congruence.
@@ -300,13 +304,13 @@ Section Rel.
     Srel s (setf s x (set_activated v i)).
   Proof.
     intros s x i v HR H Hv. eapply srel_setf; eauto.
-    unfold irel; simpl. repeat split; auto using status_rel_refl; try tauto; lia.
+    unfold irel; simpl. repeat split; auto using status_rel_refl; try tauto; intros; lia.
   Qed.
 
   Lemma srel_set_nis : forall s x i v, R x -> getf s x = Some i -> Srel s (setf s x (set_nis v i)).
   Proof.
     intros s x i v HR H. eapply srel_setf; eauto.
-    unfold irel; simpl. repeat split; auto using status_rel_refl; tauto.
+    unfold irel; simpl. repeat split; auto using status_rel_refl; try tauto; intros; lia.
   Qed.
 
   Lemma srel_set_status : forall s x i v, R x -> getf s x = Some i ->
@@ -315,7 +319,7 @@ Section Rel.
     Srel s (setf s x (set_status v i)).
   Proof.
     intros s x i v HR H Hv. eapply srel_setf; eauto.
-    unfold irel; simpl. repeat split; auto; try tauto.
+    unfold irel; simpl. repeat split; auto; try tauto; try (intros; lia).
     right; auto.
   Qed.
 
@@ -328,7 +332,7 @@ Section Rel.
     destruct (getf s p) as [pi|] eqn:Ep; [|inversion H; apply Srel_refl].
     destruct (remove1 x (i_children pi)) as [l|] eqn:El; inversion H; subst.
     eapply srel_setf; eauto.
-    unfold irel; simpl. repeat split; auto using status_rel_refl.
+    unfold irel; simpl. repeat split; auto using status_rel_refl; try (intros; lia).
     - intros c Hc; eapply remove1_in; eauto.
     - intros c Hc; eapply remove1_count_other; eauto. intros ->; contradiction.
   Qed.
